@@ -12,7 +12,7 @@ from . import c01, c02
 from .toposort_rules import check_toposort
 
 PROP = "C20"
-FLOORS = {"C20.R1": 25, "C20.R2": 25, "C20.R3": 30, "C20.R4": 4, "C20.R5": 6, "C20.R6": 3, "C20.R7": 1, "C20.R8": 4, "C20.R9": 10, "C20.R10": 1}
+FLOORS = {"C20.R1": 25, "C20.R2": 25, "C20.R3": 30, "C20.R4": 4, "C20.R5": 6, "C20.R6": 3, "C20.R7": 1, "C20.R8": 4, "C20.R9": 10, "C20.R10": 1, "C20.R11": 1}
 META = {
     "explanation": "Build independence: Cython runs __cinit__ base-first, the pure-Python simulation in BaseRef.__init__ runs them "
                    "derived-first, so along every MRO each field is assigned by exactly one __cinit__, no __cinit__ reads a field "
@@ -646,3 +646,9 @@ def check(col: Collector):
         shared(col, "C20.R9", [c06._eq_hash_pairing], select=lambda o: "no-eq-hash-override" in o.construct,
                why="an extension type inherits tp_hash and tp_richcompare only together: a class that defines __eq__ and aliases __hash__ in its "
                    "body is unhashable in the compiled build only")
+    # round 7: a missing ordering edge (a dependency not reported, or filtered out) leaves the run order to the hash seed
+    from . import c05
+    with col.rule():
+        shared(col, "C20.R11", [c05._readset, c05._structure, c05._accumulator],
+               why="the order of two tasks with no edge between them is the iteration order of a set: every location read must be reported "
+                   "so that the producer is ordered first under every seed")
